@@ -22,6 +22,13 @@ def run_scenario(sess, sc, first=False):
     if not first:
         sess.new_cache()
     load_universe(sess.u, sc["universe"])
+    xtmp = None
+    if sc.get("xdev_tmp"):
+        # <cache>/tmp lives on another file system (a symlink into /dev/shm): the rename that
+        # publishes content cannot be a rename
+        import tempfile
+        xtmp = tempfile.mkdtemp(prefix="verif-xtmp-", dir=sc["xdev_tmp"])
+        os.symlink(xtmp, os.path.join(sess.root, "tmp"))
     if sc.get("warm"):
         run_program(sess, {"keys": {}, "blobs": {}, "steps": sc["warm"]})
     fr = FsRun(sess.dir, sess)
@@ -30,7 +37,8 @@ def run_scenario(sess, sc, first=False):
     unres = {"remove_hash", "remove_fully", "clear"}
     fr.begin(resolvable=sc.get("resolvable", True)
              and not any(st["op"] in unres for st in sc["procs"])
-             and not any(st["op"] in unres for st in sc.get("warm", [])))
+             and not any(st["op"] in unres for st in sc.get("warm", [])),
+             extra_roots=[xtmp] if xtmp else ())
     plan = sc["plan"]
     procs = sc["procs"]
     replies = {}
@@ -98,6 +106,12 @@ def run_scenario(sess, sc, first=False):
         elif e["ev"] == "result" and isinstance(e["res"], dict) and "ok" not in e["res"]:
             e["res"] = {"ok": False, "e": "DIED"}
     fr.end()
+    if xtmp:
+        shutil.rmtree(xtmp, ignore_errors=True)
+        try:
+            os.unlink(os.path.join(sess.root, "tmp"))
+        except OSError:
+            pass
     if sc.get("cont"):
         run_program(sess, {"keys": {}, "blobs": {}, "steps": sc["cont"]})
     last = None
@@ -354,6 +368,12 @@ def write_variants(rng, tier, lanes=("S", "Aa", "Ta")):
                     "declare_wrong": -1, "algo": "sha512"})
         out.append({"lane": lane, "n": 300, "how": "oneshot", "keyed": True, "warm": "other"})
         out.append({"lane": lane, "n": 300, "how": "oneshot", "keyed": True, "warm": "same_address"})
+        # <cache>/tmp on another file system: publication cannot be a rename (the write must
+        # fail, or succeed without ever showing partial content)
+        if os.path.isdir("/dev/shm") and os.stat("/dev/shm").st_dev != os.stat(WORK if os.path.isdir(WORK) else "/").st_dev:
+            out.append({"lane": lane, "n": 5000, "how": "oneshot", "keyed": True, "xdev": True})
+            out.append({"lane": lane, "n": 700, "how": "streamed", "keyed": False, "chunks": 2, "declare": True,
+                        "xdev": True})
         for n in ([MIB + 1] if q else [MIB - 1, MIB, MIB + 1]):
             out.append({"lane": lane, "n": n, "how": "oneshot", "keyed": True})
             out.append({"lane": lane, "n": n, "how": "oneshot", "keyed": False})
@@ -387,8 +407,11 @@ def scenario_for_write(rng, v, idx):
     if key:
         cont += [{"op": "metadata", "lane": "S", "key": key}, {"op": "read", "lane": "Aa", "key": key}]
     cont.append({"op": "list", "lane": "S"})
-    return {"universe": {"keys": prog["keys"], "blobs": prog["blobs"]}, "warm": warm, "procs": [st],
-            "plan": {"kind": "free"}, "cont": cont, "variant": v}
+    sc = {"universe": {"keys": prog["keys"], "blobs": prog["blobs"]}, "warm": warm, "procs": [st],
+          "plan": {"kind": "free"}, "cont": cont, "variant": v}
+    if v.get("xdev"):
+        sc["xdev_tmp"] = "/dev/shm"
+    return sc
 
 
 def with_plan(sc, plan):
@@ -482,7 +505,9 @@ def errnos_for(call):
         return [EIO, ENOSPC]
     if n in ("read", "pread64", "readv", "getdents64"):
         return [EIO]
-    if n in ("rename", "renameat", "renameat2", "link", "linkat", "symlink", "symlinkat"):
+    if n in ("rename", "renameat", "renameat2", "link", "linkat"):
+        return [EIO, EACCES, ENOSPC, 18]          # 18 = EXDEV
+    if n in ("symlink", "symlinkat"):
         return [EIO, EACCES, ENOSPC]
     if n in ("unlink", "unlinkat", "rmdir"):
         return [EIO, EACCES]
